@@ -249,6 +249,9 @@ class MethodCtx:
         return any(isinstance(n, ast.Raise) for n in ast.walk(fn)) or self._calls_raising(fn) \
             or any(self._list_pop(n) is not None and id(n) not in inwhile for n in ast.walk(fn)) \
             or any(isinstance(n, ast.Delete) or self._next_iter(n, None) for n in ast.walk(fn)) \
+            or any(isinstance(n, ast.Call) and isinstance(n.func, ast.Name) and n.func.id in ("min", "max") and len(n.args) == 1
+                   and isinstance(n.args[0], ast.Call) and isinstance(n.args[0].func, ast.Attribute) and n.args[0].func.attr == "values"
+                   for n in ast.walk(fn)) \
             or any(self._struct_field_call(n) is not None and self.tr.sigs[(self._struct_field_call(n)[1].name, self._struct_field_call(n)[2])][3]
                    for n in ast.walk(fn)) \
             or any(self._is_dict_read(n, None) and id(n) not in guarded for n in ast.walk(fn)) \
@@ -405,6 +408,24 @@ class MethodCtx:
             if isinstance(mode, tuple) and mode[0] == "gloop":
                 return self.gloop_exit(mode, "false")
             _u(s, "continue outside a state loop")
+        if isinstance(s, ast.Assign) and len(s.targets) == 1 and isinstance(s.targets[0], ast.Name) \
+                and isinstance(s.value, ast.Call) and isinstance(s.value.func, ast.Name) and s.value.func.id in ("min", "max") \
+                and len(s.value.args) == 1 and not s.value.keywords and isinstance(s.value.args[0], ast.Call) \
+                and isinstance(s.value.args[0].func, ast.Attribute) and s.value.args[0].func.attr == "values":
+            # m = min(d.values()): ValueError on an empty dict
+            d, dt = self.expr(s.value.args[0].func.value, env)
+            if dt != "dict":
+                _u(s, "min/max of the values of a non-dict")
+            if not self._uses_raise:
+                _u(s, "min(d.values()) in a method not scanned as raising")
+            v = s.targets[0].id
+            env2 = env.copy()
+            env2.locals[v] = "Z"
+            env2.narrow.pop(v, None)
+            self.raises = True
+            fn = "py_min_list" if s.value.func.id == "min" else "py_max_list"
+            k = self.block(rest, env2, mode)
+            return f"match {fn} (map snd {d}) with\n| None => None\n| Some {v} =>\n{textwrap.indent(k, '    ')}\nend"
         # x = self.<struct field>.<method>(...): a pure method that may raise, or a state-changing one returning a value
         if isinstance(s, ast.Assign) and len(s.targets) == 1 and isinstance(s.targets[0], ast.Name) \
                 and self._struct_field_call(s.value) is not None:
@@ -497,6 +518,16 @@ class MethodCtx:
             v = s.targets[0].id
             env2.locals[v] = rt
             return self.bind_call(call, v, s, rest, env2, mode)
+        if isinstance(s, ast.Return) and isinstance(mode, tuple) and mode[0] == "gloop" and len(mode) > 3 and mode[3]:
+            # return inside a state loop: leave the loop with the value; the code after the loop returns it
+            if self.ret_ty is None:
+                _u(s, "return inside a loop needs a declared return type")
+            if s.value is None or (isinstance(s.value, ast.Constant) and s.value.value is None):
+                txt = "None" if is_opt(self.ret_ty) else "tt"
+            else:
+                txt, t = self.expr(s.value, env, want=self.ret_ty)
+                txt = self.coerce(txt, t, self.ret_ty, s)
+            return self.gloop_exit(mode, "true", f"(Some {txt})")
         if isinstance(s, ast.Return):
             if mode != "method":
                 _u(s, "return inside a loop")
@@ -547,7 +578,8 @@ class MethodCtx:
         if isinstance(s, ast.Delete) and len(s.targets) == 1 and isinstance(s.targets[0], ast.Subscript):
             t = s.targets[0]
             if isinstance(t.value, ast.Attribute) and isinstance(t.value.value, ast.Name) and t.value.value.id == "self" \
-                    and self.cls.fields.get(t.value.attr) == "dict" and not self.pure and mode == "method":
+                    and self.cls.fields.get(t.value.attr) == "dict" and not self.pure \
+                    and (mode == "method" or (isinstance(mode, tuple) and mode[0] == "gloop")):
                 f = t.value.attr
                 k, kt = self.expr(t.slice, env)
                 if kt in ZLIKE:
@@ -578,9 +610,10 @@ class MethodCtx:
 
     # -- general state loops: for x in range(...) / <dict>.values(), body may assign carried locals, change self,
     #    break, continue, contain further such loops; in a method that can raise the loop state is optional --------
-    def gloop_exit(self, mode, brk):
-        _, carried, with_self = mode
-        parts = (["self"] if with_self else []) + list(carried) + [brk]
+    def gloop_exit(self, mode, brk, ret=None):
+        _, carried, with_self = mode[:3]
+        has_ret = len(mode) > 3 and mode[3]
+        parts = (["self"] if with_self else []) + list(carried) + ([ret if ret is not None else "ret_"] if has_ret else []) + [brk]
         t = "(" + ", ".join(parts) + ")"
         return f"Some {t}" if self._uses_raise else t
 
@@ -601,14 +634,43 @@ class MethodCtx:
             d, dt = self.expr(it.func.value, env)
             if dt == "dict":
                 return f"(map snd {d})"
+        if isinstance(it, ast.Call) and isinstance(it.func, ast.Attribute) and it.func.attr == "items" and not it.args \
+                and getattr(self, "_gloop_items", False):
+            d, dt = self.expr(it.func.value, env)
+            if dt == "dict":
+                return d
         return None
 
     def general_for(self, s, lst, rest, env, mode):
-        if s.orelse or not isinstance(s.target, ast.Name):
-            _u(s, "for/else or a non-name loop target")
+        pair = isinstance(s.target, ast.Tuple) and len(s.target.elts) == 2 and all(isinstance(x, ast.Name) for x in s.target.elts)
+        if s.orelse or not (isinstance(s.target, ast.Name) or pair):
+            _u(s, "for/else or an unsupported loop target")
         for n in ast.walk(s):
-            if isinstance(n, (ast.Return, ast.Raise, ast.While)):
-                _u(n, "return/raise/while inside a state loop")
+            if isinstance(n, (ast.Raise, ast.While)):
+                _u(n, "raise/while inside a state loop")
+        has_ret = any(isinstance(n, ast.Return) for n in ast.walk(s))
+        if has_ret and isinstance(mode, tuple):
+            _u(s, "return inside a nested loop")
+        # the iterated container may be changed by the body only right before leaving the loop
+        itsrc = ast.unparse(s.iter.func.value) if isinstance(s.iter, ast.Call) and isinstance(s.iter.func, ast.Attribute) else None
+        if itsrc and itsrc.startswith("self."):
+            def blocks(stmts):
+                yield stmts
+                for st in stmts:
+                    for fld in ("body", "orelse"):
+                        if hasattr(st, fld) and isinstance(getattr(st, fld), list) and getattr(st, fld):
+                            yield from blocks(getattr(st, fld))
+            for blk in blocks(list(s.body)):
+                for i, st in enumerate(blk):
+                    if isinstance(st, (ast.If, ast.For, ast.With, ast.Try)):
+                        continue            # (their inner blocks are examined on their own)
+                    touches = any(isinstance(n, (ast.Subscript, ast.Attribute)) and ast.unparse(n).startswith(itsrc) and
+                                  isinstance(getattr(n, "ctx", None), (ast.Store, ast.Del)) for n in ast.walk(st)) or \
+                        any(isinstance(n, ast.Call) and isinstance(n.func, ast.Attribute) and ast.unparse(n.func.value) == itsrc
+                            and n.func.attr in ("pop", "clear", "append", "remove", "move_to_end", "popitem", "update", "insert")
+                            for n in ast.walk(st))
+                    if touches and not (i + 1 < len(blk) and isinstance(blk[i + 1], (ast.Return, ast.Break))):
+                        _u(st, "the iterated container is modified without leaving the loop at once")
         assigned = []
         for n in ast.walk(s):
             if isinstance(n, (ast.Assign, ast.AugAssign, ast.AnnAssign)):
@@ -616,15 +678,28 @@ class MethodCtx:
                     if isinstance(t, ast.Name) and t.id in env.locals and t.id not in assigned and t.id != s.target.id:
                         assigned.append(t.id)
         with_self = not self.pure
-        x = s.target.id
         benv = env.copy()
-        benv.locals[x] = "Z"
+        if pair:
+            x, xty = "kv_", "(Z * Z)"
+            k1, k2 = s.target.elts[0].id, s.target.elts[1].id
+            benv.locals[k1] = "Z"
+            benv.locals[k2] = "Z"
+            if itsrc:
+                benv.known_in.add((itsrc, k1))
+            prelude = f"let {k1} := fst kv_ in let {k2} := snd kv_ in\n"
+        else:
+            x, xty = s.target.id, "Z"
+            benv.locals[x] = "Z"
+            prelude = ""
         benv.narrow = {p: w for p, w in benv.narrow.items() if not p.startswith("self.") and p.split(".")[0] not in assigned}
-        body = self.block(list(s.body), benv, ("gloop", tuple(assigned), with_self))
-        parts = (["self"] if with_self else []) + assigned + ["brk_"]
+        body = prelude + self.block(list(s.body), benv, ("gloop", tuple(assigned), with_self, has_ret))
+        rty = [f"(option {coq_ty(self.ret_ty)})"] if has_ret else []
+        if has_ret and self.ret_ty is None:
+            _u(s, "return inside a loop needs a declared return type")
+        parts = (["self"] if with_self else []) + assigned + (["ret_"] if has_ret else []) + ["brk_"]
         pat = "'(" + ", ".join(parts) + ")"
-        init = "(" + ", ".join((["self"] if with_self else []) + assigned + ["false"]) + ")"
-        sty = " * ".join(([self.cls.name] if with_self else []) + [coq_ty(env.locals[v]) for v in assigned] + ["bool"])
+        init = "(" + ", ".join((["self"] if with_self else []) + assigned + (["None"] if has_ret else []) + ["false"]) + ")"
+        sty = " * ".join(([self.cls.name] if with_self else []) + [coq_ty(env.locals[v]) for v in assigned] + rty + ["bool"])
         env2 = env.copy()
         if with_self:
             env2.mutated = True
@@ -632,12 +707,15 @@ class MethodCtx:
         for v in assigned:
             env2.narrow.pop(v, None)
         k = self.block(rest, env2, mode)
+        if has_ret:
+            self.raises = self.raises or self._uses_raise
+            k = (f"match ret_ with\n| Some rv_ =>\n    {self.result('rv_')}\n| None =>\n{textwrap.indent(k, '    ')}\nend")
         if self._uses_raise:
             self.raises = True
-            return (f"match fold_left (fun (st_ : option ({sty})) ({x} : Z) => match st_ with None => None | Some {pat[1:]} => "
+            return (f"match fold_left (fun (st_ : option ({sty})) ({x} : {xty}) => match st_ with None => None | Some {pat[1:]} => "
                     f"if brk_ then st_ else\n{textwrap.indent(body, '    ')} end) {lst} (Some {init}) with\n"
                     f"| None => None\n| Some {pat[1:]} =>\n{textwrap.indent(k, '    ')}\nend")
-        return (f"let {pat} := fold_left (fun (st_ : {sty}) ({x} : Z) => let {pat} := st_ in if brk_ then st_ else\n"
+        return (f"let {pat} := fold_left (fun (st_ : {sty}) ({x} : {xty}) => let {pat} := st_ in if brk_ then st_ else\n"
                 f"{textwrap.indent(body, '    ')}) {lst} {init} in\n{k}")
 
     def _next_iter(self, e, env):
@@ -1011,7 +1089,9 @@ class MethodCtx:
         it = s.iter
         if isinstance(it, ast.Name) and env.locals.get(it.id) == ("list", "Z") and isinstance(s.target, ast.Name):
             return self.local_for(s, rest, env, mode)
+        self._gloop_items = any(isinstance(n, (ast.Return, ast.Break, ast.Continue)) for n in ast.walk(s))
         lst = self.gloop_iter(it, env)
+        self._gloop_items = False
         if lst is not None:
             return self.general_for(s, lst, rest, env, mode)
         for n in ast.walk(s):
